@@ -775,6 +775,14 @@ impl JobServerHandle {
     /// Return a future that is ready once a duration has elapsed.
     #[inline]
     pub(crate) fn sleep(&self, d: Duration) -> Sleep {
+        // Under the scheduler time is virtual and every sleep has the same length, so that the random
+        // back-off used while fighting for a lock cannot make two executions of one schedule differ.
+        #[cfg(feature = "verif-hooks")]
+        let d = if crate::verif::active() {
+            Duration::from_millis(20)
+        } else {
+            d
+        };
         Sleep {
             end: Instant::now() + d,
             done: false,
